@@ -669,6 +669,52 @@ def Frame.toPkt : Frame → Pkt
   | .timeEx h _ n => .timeEx h n.toPkt
   | .lldp _ _ r => .unmodelled "lldp" r
 
+/-- class names down the chain (terminal: `bytes`, `None`, `?cls` for a foreign layer, `!cls` for an object that gave up) -/
+def Frame.classes : Frame → List String
+  | .raw _ => ["bytes"]
+  | .nil => ["None"]
+  | .unparsed c _ => ["!" ++ c]
+  | .foreign c _ => ["?" ++ c]
+  | .eth _ _ n => "ethernet" :: n.classes
+  | .vlan _ _ n => "vlan" :: n.classes
+  | .llc _ p _ n => (if p then "llc" else "!llc") :: n.classes
+  | .arp _ _ n => "arp" :: n.classes
+  | .ipv4 _ _ n => "ipv4" :: n.classes
+  | .udp _ _ n => "udp" :: n.classes
+  | .tcp _ _ n => "tcp" :: n.classes
+  | .icmp _ _ n => "icmp" :: n.classes
+  | .echo _ _ n => "echo" :: n.classes
+  | .unreach _ _ n => "unreach" :: n.classes
+  | .timeEx _ _ n => "time_exceeded" :: n.classes
+  | .lldp _ p _ => [if p then "lldp" else "!lldp"]
+
+/-- what `ethernet(raw=bs)` raises in the model (nesting budget `budget bs`), if anything -/
+def parseExc (cfg : Cfg) (bs : Bytes) : Option PErr :=
+  match parseEthernet cfg (budget bs) bs with
+  | .error e => some e
+  | .ok _ => none
+
+/-- what `.pack()` of the parse result raises in the model, if anything -/
+def packExc (cfg : Cfg) (bs : Bytes) : Option Err :=
+  match parseEthernet cfg (budget bs) bs with
+  | .error _ => none
+  | .ok f => match packF none f with
+    | .error e => some e
+    | .ok _ => none
+
+/-- what `.dump()` of the parse result raises in the model, if anything -/
+def printExc (cfg : Cfg) (bs : Bytes) : Option PErr :=
+  match parseEthernet cfg (budget bs) bs with
+  | .error _ => none
+  | .ok f => match printF cfg f with
+    | .error e => some e
+    | .ok _ => none
+
+def classesOf (cfg : Cfg) (bs : Bytes) : List String :=
+  match parseEthernet cfg (budget bs) bs with
+  | .error e => ["raise " ++ e.toString]
+  | .ok f => f.classes
+
 def K.toKind : K → Option Kind
   | .eth => some .eth | .vlan => some .vlan | .arp => some .arp | .ipv4 => some .ipv4 | .udp => some .udp
   | .tcp => some .tcp | .icmp => some .icmp | .echo => some .echo | .unreach => some .unreach | .timeEx => some .timeEx
